@@ -40,9 +40,9 @@ type Program struct {
 	// Repo holds the packages of the module under analysis, sorted by path.
 	Repo []*packages.Package
 	// All holds every package in the import closure keyed by import path.
-	All  map[string]*packages.Package
-	SSA  *ssa.Program
-	cg   *callgraph.Graph
+	All map[string]*packages.Package
+	SSA *ssa.Program
+	cg  *callgraph.Graph
 	// funcsByObj maps a types.Func to its SSA function.
 	declByFn map[*ssa.Function]ast.Node
 	nFuncs   int
